@@ -47,6 +47,23 @@ def main():
         # local library's decision about them must not depend on what the global library has been doing in this process
         module_names = [n for n in vars(tags) if n not in dir(tags.TagLibrary)]
         rng.shuffle(module_names)
+        # names of the builtins that the code of the Tags module itself refers to (read off the compiled functions): as tag names of
+        # the global library they are names like any other - accepted or refused, but the libraries keep working
+        import builtins
+        import types
+        used = set()
+        for obj in list(vars(tags).values()) + list(vars(tags.TagLibrary).values()):
+            fn = getattr(obj, '__func__', obj)
+            if isinstance(fn, types.FunctionType):
+                used |= set(fn.__code__.co_names)
+        builtin_names = sorted(used & set(dir(builtins)))
+        rng.shuffle(builtin_names)
+        for n in builtin_names:
+            glob.add(n)
+            tried.append([glob.label, n])
+            ctx.count('builtin_names_used_by_the_module_tried')
+            glob.full_check(rng)
+            local.full_check(rng)
         for n in names + closure + module_names[:6]:
             d = glob if rng.random() < (0.7 if n not in closure else 0.5) and n not in module_names else local
             fresh = n not in d.ref
